@@ -147,6 +147,29 @@ def job_transform(job, n):
         job.prove(f"transform[{n}]/reach", pr.pc, expect="sat")
 
 
+def replay_builder_vs_quad(model, dry="dry gas", pmax=45):
+    """Real build_pvt_gas against the quadrature route for the same gas: pseudopressure differences between table rows vs
+    pseudopressure_Hussainy at the Sutton point of the caller's composition (the 10-psi trapezoid rule is within 1e-3 of
+    adaptive quadrature on these smooth integrands; a wrong composition or gravity moves the difference by percents)."""
+    import numpy as np
+    from bluebonnet.fluids import fluid as rf
+    import bluebonnet.fluids.gas as rg
+    m = model_floats(model, ["N2", "H2S", "CO2", "sg", "T"], default=dict(N2=0.02, H2S=0.15, CO2=0.01, sg=0.75, T=220.0))
+    if abs(m["H2S"] - m["CO2"]) < 0.05:
+        m["H2S"], m["CO2"] = 0.15, 0.01
+    gv = {"N2": m["N2"], "H2S": m["H2S"], "CO2": m["CO2"], "Gas Specific Gravity": m["sg"], "Reservoir Temperature (deg F)": m["T"]}
+    df = rf.build_pvt_gas(gv, dry, 3000.0)
+    tpc, ppc = rg.pseudocritical_point_Sutton(m["sg"], rg.make_nonhydrocarbon_properties(m["N2"], m["H2S"], m["CO2"]), dry)
+    p = np.asarray(df["pressure"], float)
+    pp = np.asarray(df["pseudopressure"], float)
+    i, j = len(p) // 3, len(p) - 1
+    quad = [float(rg.pseudopressure_Hussainy(m["T"], float(p[k]), tpc, ppc, m["sg"])) for k in (i, j)]
+    got, want = pp[j] - pp[i], quad[1] - quad[0]
+    bad = abs(got - want) > 2e-3 * abs(want)
+    return bad, {"what": f"build_pvt_gas(..., {dry!r}): m({p[j]}) - m({p[i]}) = {got!r} from the table vs {want!r} by quadrature for the same composition "
+                         f"(relative difference {abs(got - want) / abs(want):.2e})", "inputs": m}
+
+
 def replay_builder(model, dry="dry gas", pmax=45):
     """Real build_pvt_gas on the model's composition: its pseudopressure column against the stand-alone transform of its own
     (pressure, viscosity, z-factor) columns, first row 0, strictly increasing."""
@@ -188,6 +211,15 @@ def job_builder(job, pmax):
             job.prove(f"builder[{dry}]/first row 0, strictly increasing[path{k}]",
                       pr.pc + [T.b_or(T.b_not(T.b_eq0(P(pp[0]))), *[T.b_le(P(pp[j + 1]), P(pp[j])) for j in range(n - 1)])], bound=f"{n} rows",
                       replay=(replay_builder, {"dry": dry, "pmax": pmax}))
+            # the columns the table integrates are the quadrature route's integrand for the *caller's* gas: viscosity_Sutton and
+            # z_factor_DAK at (T, p_row, Sutton point of the supplied composition[, gravity])
+            tpc, ppc = gas.pseudocritical_point_Sutton(vs["sg"], gas.make_nonhydrocarbon_properties(vs["N2"], vs["H2S"], vs["CO2"]), dry)
+            same = []
+            for j in range(n):
+                same.append(T.b_eq(P(mu[j]), P(ufs["viscosity_Sutton"](vs["T"], p[j], tpc, ppc, vs["sg"]))))
+                same.append(T.b_eq(P(z[j]), P(ufs["z_factor_DAK"](vs["T"], p[j], tpc, ppc))))
+            job.prove(f"builder[{dry}]/integrand columns are viscosity_Sutton and z_factor_DAK at the Sutton point of the caller's composition[path{k}]",
+                      pr.pc + [T.b_not(T.b_and(*same))], bound=f"{n} rows", replay=(replay_builder_vs_quad, {"dry": dry, "pmax": pmax}))
             job.prove(f"builder[{dry}]/reach[path{k}]", pr.pc, expect="sat")
 
 
